@@ -2,8 +2,10 @@
    Model: model/FormatHtml.v (should_format, get_indent, html_element), model/OutStream.v.
    Proofs: proofs/FormatSteps.v (element() cut into blocks), proofs/FormatChunks.v (chunk view of
    the stream), proofs/FormatCosmetic.v, proofs/FormatProofs.v. *)
-From Emmet Require Import lib.Base model.MarkupConvert model.OutStream model.FormatHtml
-     proofs.FormatSteps proofs.FormatProofs proofs.FormatChunks proofs.FormatTabstops proofs.FormatCosmetic proofs.FormatDepth proofs.FormatSelfClose.
+From Coq Require Import ZArith List.
+From Emmet Require Import lib.Base model.MarkupConvert model.OutStream model.FormatHtml proofs.HtmlEvents
+     proofs.FormatSteps proofs.FormatProofs proofs.FormatChunks proofs.FormatTabstops proofs.FormatCosmetic proofs.FormatDepth proofs.FormatSelfClose
+     proofs.FormatLines proofs.FormatDepthFull.
 
 (* SPEC.
    fchunks st      the callback invocations of a run, positions erased: CT text | CF index placeholder
@@ -142,6 +144,67 @@ Theorem leaf_lines_indent c nm node st :
 Proof. exact (leaf_chunks c nm node st). Qed.
 Print Assumptions leaf_lines_indent.
 
+(* C12_indent_is_depth (FULL; proofs/FormatLines.v, proofs/FormatDepthFull.v): ONE statement quantified over every
+   line-break chunk of the final stream, for ALL trees of the domain [depth_dom] and ALL option records with an
+   empty formatSkip list (output.format on or off; the statement needs no hypothesis on it).
+   SPEC (proofs/FormatLines.v):
+     tree_events c n     the open/close events of the tree in document order (HtmlEvents): SOpen name void | SClose name
+     chunk_tags x        the tag a chunk stands for: `<name` -> TOpen, `</name>` -> TClose, nothing otherwise
+     open_at E pre       the number of elements open after the chunks pre: the i-th tag chunk of the stream is the i-th
+                         event of E (tag_chunks_are_events below), an open event counts +1 unless the element is written
+                         self-closed, a close event -1
+     starts_close more   the first text on the line is a closing tag (empty text chunks skipped; a tabstop is text)
+     indented f k rest more   rest = the indentation chunk of k units followed by more; the stream writes no
+                         indentation chunk for an explicit size 0: then k = 0 and rest = more
+   STATEMENT: every chunk written by push_newline (ghost flag true) is output.newline ++ output.baseIndent and is
+   followed by exactly k indent units, k = number of elements open at that point, one less when the line starts with a
+   closing tag (the closing tag then has the indentation of its opening tag's line: C12_close_aligned).
+   DOMAIN, exactly:
+     cfg_depth c         newline ++ baseIndent and indent do not start with '<'; comments off (they are additive, see
+                         comments_additive); no '<', CR, LF in the markup.attributes / markup.valuePrefix tables
+     depth_dom c forest  for every node: name without '<', CR, LF, not starting with '/' or '!'; attributes only on named
+                         nodes (as the resolver guarantees: implicit tag); no '<' in text; attribute names and values
+                         without '<', CR, LF (a line break inside an opening tag is indented by the elements open
+                         BEFORE that tag: outside the tag-chunk reading of open_at); and for every named element
+       last_ok           its last child is an element, or is line-broken itself (should_format), or is a text without
+                         children whose last line is not empty (technical: keeps `</name>` from following a pending
+                         empty line; never violated by the parser's output in 21k generated abbreviations)
+       snippet_ok        if its text has a field and it has children (push_snippet path): the text has no line break
+                         and, when the last child is line-broken, the text ends with that field.
+   The shapes excluded by snippet_ok are exactly those on which the code deviates: known finding
+   C12:depth-multiline-field-text-with-children (continuation lines of the text, and the rest of the text after the
+   children, get the level of the element instead of level + 1): C12_depth_multiline_field_text_refuted and
+   C12_depth_text_after_children_refuted prove the deviation on the model.
+   Not covered: line breaks inside attribute values and inside field placeholders (the latter are no newline events:
+   C13), comment.enabled. *)
+Theorem C12_indent_is_depth c forest :
+  oc_format_skip c = [] -> cfg_depth c = true -> depth_dom c forest = true ->
+  forall pre s rest, fchunks (html_format c forest) = pre ++ CT true s :: rest ->
+    s = of_newline (oc_fmt c) ++ of_base_indent (oc_fmt c) /\
+    exists k more, indented (oc_fmt c) k rest more /\
+                   k = (open_at (flat_map (tree_events c) forest) pre - (if starts_close more then 1 else 0))%Z.
+Proof. exact (indent_is_depth_full_lemma c forest). Qed.
+Print Assumptions C12_indent_is_depth.
+
+(* the reading of open_at is the reading of the output: the tag chunks of the stream are the events of the tree, one by one *)
+Theorem tag_chunks_are_events c forest :
+  cfg_depth c = true -> depth_dom c forest = true ->
+  flat_map chunk_tags (fchunks (html_format c forest)) = map erase (flat_map (tree_events c) forest).
+Proof. exact (FormatDepthFull.tag_chunks_are_events c forest). Qed.
+Print Assumptions tag_chunks_are_events.
+
+Theorem C12_depth_multiline_field_text_refuted :
+  oc_format_skip dx_cfg = [] /\ cfg_depth dx_cfg = true /\ depth_dom dx_cfg dx_multiline = false /\
+  ~ lines_indented (oc_fmt dx_cfg) (flat_map (tree_events dx_cfg) dx_multiline) (fchunks (html_format dx_cfg dx_multiline)).
+Proof. exact depth_multiline_field_text_refuted. Qed.
+Print Assumptions C12_depth_multiline_field_text_refuted.
+
+Theorem C12_depth_text_after_children_refuted :
+  oc_format_skip dx_cfg = [] /\ cfg_depth dx_cfg = true /\ depth_dom dx_cfg dx_after = false /\
+  ~ lines_indented (oc_fmt dx_cfg) (flat_map (tree_events dx_cfg) dx_after) (fchunks (html_format dx_cfg dx_after)).
+Proof. exact depth_text_after_children_refuted. Qed.
+Print Assumptions C12_depth_text_after_children_refuted.
+
 (* level_restored: the indentation level (the number of indent units a line break made now
    would be followed by) is the same after an element as before it, for ALL trees, sibling
    positions, option records and stream states. *)
@@ -232,4 +295,19 @@ Proof.
   cbv zeta.
   match goal with |- exists pre post, ?X = _ => exists (firstn 5 X), (skipn 10 X) end.
   vm_compute. reflexivity.
+Qed.
+
+(* Non-vacuity of C12_indent_is_depth: <div><p>hi</p><span title="${1}"> x</span></div> under the default options is in
+   the domain; its stream has three line breaks: before <p and before <span with 1 unit (div is open), before </div>
+   with none (explicit size 0: no indentation chunk). *)
+Example indent_is_depth_nonvacuous :
+  oc_format_skip ex_c1 = [] /\ cfg_depth ex_c1 = true /\ depth_dom ex_c1 ex_tree = true /\
+  exists pre rest more,
+    fchunks (html_format ex_c1 ex_tree) = pre ++ CT true [10%N] :: rest /\
+    indented (oc_fmt ex_c1) 1 rest more /\ open_at (flat_map (tree_events ex_c1) ex_tree) pre = 1%Z /\ starts_close more = false.
+Proof.
+  split; [reflexivity|]. split; [reflexivity|]. split; [reflexivity|].
+  match goal with |- exists pre rest more, ?X = _ /\ _ =>
+    let X' := eval vm_compute in X in exists (firstn 2 X'), (skipn 3 X'), (skipn 4 X') end.
+  split; [vm_compute; reflexivity|]. split; [left; vm_compute; reflexivity|]. split; vm_compute; reflexivity.
 Qed.
